@@ -45,7 +45,7 @@ func init() {
 		Assumptions: []string{
 			">= 2/3 of the snapshot shares report the identical proof in every round (what the evidence consensus of C04 delivers)",
 			"the validator set of the encoding is the one the chain hands out for the valset id the relayer published with the tx hash (GetValsetByID); a valset id without snapshot names no validator set",
-			"accept/reject of the attestation is read from the module's own log lines ('Removed message from queue' = attester ran; 'Failed to verify transaction integrity.' / 'Transaction execution failed' / 'Failed to get transaction receipt' = rejected); success effects are read from state",
+			"accept/reject of the attestation: 'the attester ran and its cache context was committed' is read from state (the relay record routerAttester writes into the metrix history of the assignee for the message id), 'rejected' from the module's own log lines ('Failed to verify transaction integrity.' / 'Transaction execution failed' / 'Failed to get transaction receipt'); success effects are read from state",
 		},
 		Cases:       cases,
 		Run:         run,
